@@ -626,3 +626,309 @@ def _uniq(fails):
         if f.key not in seen:
             seen.add(f.key); out.append(f)
     return out
+
+
+# ------------------------------------------------------------------------------------------------
+# correspondence: the state machine coq/model/KalmanSession.v against real call sequences
+# ------------------------------------------------------------------------------------------------
+
+_SOL_FIELDS = ("Ta", "Pa", "Ka", "Za", "H", "D", "Ua")
+
+
+@contextlib.contextmanager
+def recording():
+    """Record, without bypassing any code, (a) every call of fords.kalmans.predict: the solution matrices, initial
+    condition, data arrays, std arrays and anticipated-shock impacts the recursion is handed; (b) every call of
+    fords.solutions._get_solution_expansion: the memo list (identity), its length before, and `forward`."""
+    import irispie.fords.kalmans as K
+    import irispie.fords.solutions as SO
+    rec = {"predict": [], "expand": []}
+    orig_predict, orig_expand = K.predict, SO._get_solution_expansion
+
+    def cp(a):
+        return None if a is None else np.array(a, dtype=float, copy=True)
+
+    def predict(*args, **kw):
+        gs = kw["partial_generate_period_system"].keywords
+        gd = kw["partial_generate_period_data"].keywords
+        sol = gs["solution_v"]
+        item = {f: cp(getattr(sol, f)) for f in _SOL_FIELDS}
+        for i, x in enumerate(kw["initials"]):
+            item[f"init{i}"] = cp(x)
+        for k in ("y1_array", "std_u_array", "std_w_array"):
+            item[k] = cp(gs[k])
+        imp = gs["all_v_impact"]
+        item["v_impact"] = None if imp is None else [cp(x) for x in imp]
+        for k in ("u_array", "v_array", "w_array"):
+            item[k] = cp(gd[k])
+        rec["predict"].append(item)
+        return orig_predict(*args, **kw)
+
+    def expand(existing, *a):
+        rec["expand"].append({"list": existing, "before": len(existing), "forward": int(a[-1])})
+        return orig_expand(existing, *a)
+    K.predict, SO._get_solution_expansion = predict, expand
+    try:
+        yield rec
+    finally:
+        K.predict, SO._get_solution_expansion = orig_predict, orig_expand
+
+
+def _same(a, b) -> bool:
+    if a is None or b is None:
+        return a is None and b is None
+    if isinstance(a, list) or isinstance(b, list):
+        return isinstance(a, list) and isinstance(b, list) and len(a) == len(b) and all(_same(x, y) for x, y in zip(a, b))
+    a = np.asarray(a, dtype=float); b = np.asarray(b, dtype=float)
+    return a.shape == b.shape and bool(np.allclose(a, b, rtol=1e-12, atol=1e-13, equal_nan=True))
+
+
+def forward_of_filter(case: dict):
+    """`forward` of the anticipated shocks in the filter's data: index of the last period with a non-zero value;
+    None when the filter does not read shocks from the data or there is no such value."""
+    c = dict(case)
+    if not kc.kf_options(c)["shocks_from_data"] or not case["model"]["shocks"]:
+        return None
+    last = None
+    for col in case.get("ant", {}).values():
+        for t, v in enumerate(col):
+            if v:
+                last = t if last is None else max(last, t)
+    return last
+
+
+def coq_session(idx: int, case: dict) -> str:
+    """The session in the syntax of lib/KalmanSessionCase.v; values = [structural block; stds block] of pool indices;
+    the data column of variant v is min(v, number of columns - 1)."""
+    ncol = len(case["data_shift"]) if case.get("data_shift") else 1
+    ff = forward_of_filter(case)
+    fs = (case["nper"] - 1) if case["model"]["shocks"] else None
+
+    def d(col, f):
+        return f"({col}, {'None' if f is None else f'Some {f}%nat'})"
+    ops = []
+    for op in case["ops"]:
+        k = op[0]
+        if k == "alter":
+            ops.append(f"OAlter _ _ {op[1]}%nat")
+        elif k in ("assign", "assign_stds"):
+            xs = [f"[{'None' if k == 'assign_stds' else f'Some {i}'}; Some {i}]" for i in op[1]]
+            ops.append(f"OAssign _ _ [{'; '.join(xs)}] {xs[-1]}")
+        elif k == "solve":
+            ops.append("OSolve _ _")
+        elif k in ("filter", "nll"):
+            cols = [d(c, ff) for c in range(ncol)]
+            ops.append(f"OFilter _ _ {kc.coq_bool(op[1])} [{'; '.join(cols)}] {cols[-1]}")
+        elif k == "simulate":
+            ops.append(f"OSimulate _ _ {kc.coq_bool(op[1])} [{d(0, fs)}] {d(0, fs)}")
+    return f"Eval vm_compute in session [0; 0] [{'; '.join(ops)}].\n"
+
+
+SESSION_HEADER = """From Coq Require Import List ZArith Bool.
+From Verif Require Import model.KalmanSession lib.KalmanSessionCase.
+Import ListNotations.
+Open Scope Z_scope.
+Set Printing Width 1000000.
+Set Printing Depth 1000000.
+"""
+
+
+def _split(lst, sep=-1):
+    out = [[]]
+    for x in lst:
+        if x == sep and len(out) < 3:
+            out.append([])
+        else:
+            out[-1].append(x)
+    return out
+
+
+def decode_out(flat: list) -> dict | None:
+    """Inverse of KalmanSessionCase.flat_O."""
+    if not flat:
+        return None
+    mode = flat[0]
+    solved, par, rest = _split(flat[1:])
+    col, nexp = rest[0], rest[1]
+    ex = rest[2:]
+    w = len(solved) + 3
+    exps = [ex[i * w:(i + 1) * w] for i in range(nexp)]
+    return {"deviation": bool(mode), "solved": solved, "par": par, "column": col,
+            "expansions": [{"triangular": bool(e[0]), "solved": e[2:2 + len(solved)], "k": e[-1]} for e in exps]}
+
+
+def impl_session(case: dict) -> list[dict]:
+    """Run the session on the implementation; per operation: the recorded inputs of predict (one per variant), the
+    expansion calls (variant, basis, memo length before, forward) and the shape of every variant afterwards."""
+    m_ref = build(case, 0)
+    m = build(case, 0)
+    span = None
+    trace = []
+    _, span = session_databox(m_ref, case, False, 1)
+    for op in case["ops"]:
+        with recording() as rec:
+            if op[0] in ("filter", "nll"):
+                dev = bool(op[1])
+                db, span = session_databox(m_ref, case, dev, m.num_variants)
+                c = dict(case); c["deviation"] = dev
+                if op[0] == "filter":
+                    m.kalman_filter(db, span, return_info=True, unpack_singleton=False, **kc.kf_options(c))
+                else:
+                    m.neg_log_likelihood(db, span, **kc.kf_options(c))
+            else:
+                apply_op(m, case, op, None, span)
+        shapes, owner = [], {}
+        for v, var in enumerate(m._variants):
+            sol = var.solution
+            if sol is None:
+                shapes.append([0, 0, 0])
+            else:
+                shapes.append([1, len(sol.square_expansion), len(sol.triangular_expansion)])
+                owner[id(sol.square_expansion)] = (v, False)
+                owner[id(sol.triangular_expansion)] = (v, True)
+        exps = []
+        for e in rec["expand"]:
+            v, tri = owner.get(id(e["list"]), (None, None))
+            exps.append({"variant": v, "triangular": tri, "before": e["before"], "forward": e["forward"]})
+        trace.append({"predict": rec["predict"], "expand": exps, "shapes": shapes})
+    return trace
+
+
+def reference_inputs(case: dict, cache: dict, solved: int, now: int, stds: int, col: int, dev: bool):
+    """What predict is handed by a FRESH single-variant model with the given values on data column `col`."""
+    key = ("ref", solved, now, stds, col, dev)
+    if key not in cache:
+        mf = _fresh(case, cache, solved, now, stds)
+        cv = column_case(case, col); cv["deviation"] = dev
+        if "refm" not in cache:
+            cache["refm"] = build(case, 0)
+        db, span = kc.input_databox(cache["refm"], cv)
+        strip_stds(db, case)
+        # an own object: the memo lists of the cached fresh model must not be filled by reference runs
+        import copy as _copy
+        mrun = _copy.deepcopy(mf)
+        for var in mrun._variants:
+            if var.solution is not None:
+                var.solution.square_expansion = []; var.solution.triangular_expansion = []
+        with recording() as rec:
+            mrun.kalman_filter(db, span, return_info=True, **kc.kf_options(cv))
+        cache[key] = rec["predict"][0]
+    return cache[key]
+
+
+def session_correspondence(ctx, n_sessions: int, max_periods: int, pid: str, res: CorrResult) -> None:
+    """Appends to `res` (disagreements, counts) the comparison of the Coq state machine with real sessions."""
+    import time as _time
+    rng = session_rng(ctx, "correspondence")
+    t0 = _time.time()
+    cases, traces = [], []
+    tries = 0
+    raised = 0
+    while len(cases) < n_sessions and tries < 4 * n_sessions + 10:
+        tries += 1
+        case = gen_session(rng, max_periods=max_periods)
+        try:
+            tr = impl_session(case)
+        except np.linalg.LinAlgError:
+            continue
+        except Exception as e:  # noqa
+            raised += 1
+            res.disagreements.append(Disagreement("session: a public call raises", case, None, f"{type(e).__name__}: {e}"[:300]))
+            continue
+        cases.append(case); traces.append(tr)
+    ctx.log(f"correspondence: {len(cases)} sessions run on the implementation, {_time.time() - t0:.0f}s")
+    nsh = max(1, min(core.NCPU, len(cases) // 8 or 1))
+    shards = [list(range(i, len(cases), nsh)) for i in range(nsh)]
+    texts = [SESSION_HEADER + "".join(coq_session(k, cases[i]) for k, i in enumerate(idxs)) for idxs in shards]
+    results = core.run_cases(ctx, texts, prefix=f"kfs_{pid}", timeout=600)
+    res.shards += len(texts)
+    stats = {"sessions": len(cases), "operations": 0, "filter_calls": 0, "variant_calls_compared": 0,
+             "arrays_compared": 0, "multi_variant_calls": 0, "deviation_calls": 0, "calls_after_resolve": 0,
+             "expansion_calls": 0, "shapes_compared": 0, "sessions_raised": raised}
+    for idxs, (ok, out) in zip(shards, results):
+        if not ok:
+            res.disagreements.append(Disagreement("session shard does not evaluate", None, out[-800:], None))
+            continue
+        bodies = core.parse_eval_lists(out)
+        if len(bodies) != len(idxs):
+            res.disagreements.append(Disagreement("session shard: unparsable output", None, out[-800:], None))
+            continue
+        for i, body in zip(idxs, bodies):
+            case, tr = cases[i], traces[i]
+            try:
+                model_trace = kc.parse_term(body)
+            except Exception as e:  # noqa
+                res.disagreements.append(Disagreement("session shard: unparsable result", case, body[:400], repr(e)))
+                continue
+            _compare_session(case, tr, model_trace, res, stats)
+    res.evaluations += len(cases)
+    res.distinct_nontrivial += sum(1 for c in cases if any(o[0] == "solve" for o in c["ops"]))
+    res.distribution["sessions"] = stats
+    res.rule += ("; SESSIONS: a pool of 2-4 parameterisations of one model source (transition, measurement, steady-state "
+                 "and std parameters all different), 4-14 public operations on one model object (alter_num_variants 1-3, "
+                 "per-variant assign, assign of stds only, solve, kalman_filter in both modes, neg_log_likelihood, simulate "
+                 "with anticipated shocks), optionally one data column per variant; coq/model/KalmanSession.v, run on the "
+                 "same operations with symbolic values, names for every call and variant the values whose solution, the "
+                 "values whose stds, the expansion matrices and the data column the recursion is handed, and the length of "
+                 "both memo lists of every variant after every operation; compared with what fords.kalmans.predict / "
+                 "_get_solution_expansion actually receive (recorded by patching from the harness) - the recorded arrays "
+                 "must equal those of a freshly built single-variant model with exactly those values (rtol 1e-12)")
+
+
+def _compare_session(case, tr, model_trace, res, stats) -> None:
+    cache: dict = {}
+    if len(model_trace) != len(tr):
+        res.disagreements.append(Disagreement("session: number of operations the model executes", case,
+                                              len(model_trace), len(tr)))
+        return
+    resolved_seen = False
+    for k, (op, (m_out, m_shapes), it) in enumerate(zip(case["ops"], model_trace, tr)):
+        stats["operations"] += 1
+        where = f"session op #{k} {op}"
+        if [list(s) for s in m_shapes] != it["shapes"]:
+            res.disagreements.append(Disagreement(f"{where}: (solved, |square memo|, |triangular memo|) per variant", case,
+                                                  m_shapes, it["shapes"]))
+            return
+        stats["shapes_compared"] += len(m_shapes)
+        outs = [decode_out(list(o)) for o in m_out]
+        # expansion calls: one per variant whose data carry anticipated shocks, on the variant's own memo list
+        want_exp = []
+        for v, o in enumerate(outs):
+            if o is not None and o["expansions"]:
+                want_exp.append((v, o["expansions"][0]["triangular"], len(o["expansions"])))
+        got_exp = [(e["variant"], e["triangular"], e["forward"]) for e in it["expand"]]
+        if op[0] in ("filter", "nll", "simulate") and sorted(want_exp) != sorted(set(got_exp)):
+            res.disagreements.append(Disagreement(f"{where}: expansion calls (variant, triangular basis, forward)", case,
+                                                  want_exp, got_exp))
+            return
+        stats["expansion_calls"] += len(got_exp)
+        if op[0] not in ("filter", "nll"):
+            if op[0] == "solve":
+                resolved_seen = True
+            continue
+        stats["filter_calls"] += 1
+        if len(outs) != len(it["predict"]):
+            res.disagreements.append(Disagreement(f"{where}: number of passes of the recursion", case, len(outs),
+                                                  len(it["predict"])))
+            return
+        stats["multi_variant_calls"] += len(outs) > 1
+        stats["deviation_calls"] += bool(op[1])
+        stats["calls_after_resolve"] += "after-resolve" in call_shape(case, k)
+        for v, (o, got) in enumerate(zip(outs, it["predict"])):
+            if o is None:
+                res.disagreements.append(Disagreement(f"{where}: variant {v} has no solution in the model", case, None, None))
+                return
+            s_solved, _ = o["solved"]
+            s_now, s_std = o["par"]
+            ref = reference_inputs(case, cache, s_solved, s_now, s_std, o["column"], o["deviation"])
+            stats["variant_calls_compared"] += 1
+            for name in sorted(ref):
+                stats["arrays_compared"] += 1
+                if not _same(ref[name], got.get(name)):
+                    res.disagreements.append(Disagreement(
+                        f"{where}: variant {v}: `{name}` handed to the recursion is not that of the model's choice "
+                        f"(solution of pool[{s_solved}], values pool[{s_now}], stds pool[{s_std}], data column "
+                        f"{o['column']}, deviation={o['deviation']})", case,
+                        np.asarray(ref[name]).tolist() if not isinstance(ref[name], list) and ref[name] is not None else "see case",
+                        np.asarray(got.get(name)).tolist() if got.get(name) is not None and not isinstance(got.get(name), list) else None))
+                    return
